@@ -24,6 +24,9 @@ def oracle(chk, p, r, m):
                 chk.fail_oracle("order:cycle-emitted", f"{b['builder']}/{b['app']} has a build-dependency cycle but statements were emitted", {"project": p})
     for b in projcheck.built(r):
         key = (b["builder"], b["app"])
+        if len(prod.get(b["outfile"], [])) != 1:
+            chk.count("skipped:outfile-has-several-producers (C06)")
+            continue
         names = [x["name"] for x in b["modules"]]
         mods = {x["name"]: x for x in b["modules"]}
         globals_ = [x for x in b["modules"] if x["is_global_build_dep"]]
@@ -51,6 +54,10 @@ def oracle(chk, p, r, m):
             fs = list(d.get("build_dep_files") or [])
             return fs
 
+        link0 = list(prod.get(b["outfile"], []))
+        if link0 and link0[0]["rule"].startswith("POST_LINK_"):
+            link0 = prod.get(link0[0]["inputs"][0], [])
+        global_aliases = [o for o in (link0[0]["order_only"] if link0 else []) if o in aliases]
         for x in b["modules"]:
             if x["srcdir"] is None or x["has_build"]:
                 continue
@@ -70,6 +77,12 @@ def oracle(chk, p, r, m):
                 if st["inputs"][0] not in srcs:
                     continue
                 chk.count("compile-with-build-deps")
+                if not x["is_global_build_dep"]:
+                    for ga in global_aliases:
+                        if ga not in st["order_only"]:
+                            chk.fail_oracle("order:global-custom-outs-missing", f"{key}: {st['inputs'][0]} of {x['name']} does not wait for {ga} (outputs of a global build dep the link waits for)",
+                                            {"project": p, "build": list(key)})
+                            return
                 for dn, files, has_build in need:
                     for f in files:
                         if f not in st["order_only"]:
